@@ -19,7 +19,7 @@ from . import pdbtext as P
 PID = 'C03'
 
 TIERS = {
-    'quick': {'explore_s': 45, 'selftest_seeds': 8, 'oneshot': 12, 'bare': 8,
+    'quick': {'explore_s': 40, 'selftest_seeds': 8, 'oneshot': 12, 'bare': 8,
               'min_wall': 75, 'full_every': 0, 'max_min': 2},
     'thorough': {'explore_s': 1200, 'selftest_seeds': 64, 'oneshot': 96,
                  'bare': 48, 'min_wall': 150, 'full_every': 25, 'max_min': 4},
@@ -185,6 +185,8 @@ class Agg:
         self.harness = []
         self.mismatches = []
         self.hashseeds = set()
+        self.state_windows = 0
+        self.aimed = 0
 
     def add(self, job, res):
         if 'harness_error' in res:
@@ -214,6 +216,8 @@ class Agg:
         self.refs += st['refs']
         self.census += st['census_runs']
         self.line_events += st['line_events']
+        self.state_windows += st.get('state_windows', 0)
+        self.aimed += st.get('aimed_crashes', 0)
         self.arms[job['arm']] = self.arms.get(job['arm'], 0) + 1
         self.notes.update(res['notes'])
         self.hashseeds.add(res['hashseed'])
@@ -485,6 +489,9 @@ def main(argv=None):
                 'arms': agg.arms, 'distinct_hash_seeds': len(agg.hashseeds),
                 'reference_computations': agg.refs,
                 'census_passes': agg.census, 'traced_line_events': agg.line_events,
+                'in_flight_state_windows_seen': agg.state_windows,
+                'crashes_aimed_into_state_windows': agg.aimed,
+                'reference_hash_seed': 0,
                 'verdicts': agg.verdicts,
                 'self_test': st, 'seam_notes': sorted(agg.notes),
                 'fixed_defect_replays': regress,
